@@ -121,10 +121,11 @@ type HistoryParams struct {
 	Kinds          []string
 	Policies       []string
 	CloudFail      bool
+	Phrases        int // percentage of generation steps that emit a multi-op phrase (default 35)
 }
 
 var DefaultWeights = map[string]int{
-	"create": 14, "sched": 16, "filter": 4, "bind": 5, "phase": 7, "delete": 10, "deliver": 12, "drop": 1,
+	"create": 14, "recreate": 4, "sched": 16, "filter": 4, "bind": 5, "phase": 7, "delete": 10, "deliver": 12, "drop": 1,
 	"unbind": 10, "resync": 4, "syncips": 2, "scale": 3, "delwl": 1, "mkwl": 1, "apirelease": 3, "poolapi": 2,
 	"poolobj": 1, "reload": 0, "reserve": 1, "unreserve": 1, "fipevent": 1, "restart": 1, "synclister": 0,
 	"quiesce": 2, "episode": 0,
@@ -267,7 +268,7 @@ func GenHistory(t *rapid.T, hp *HistoryParams) Case {
 		w["synclister"] += 8
 	}
 	if hp.Episodes {
-		w["episode"] += 8
+		w["episode"] += 14
 	}
 	if hp.Reloads {
 		w["reload"] += 5
@@ -278,7 +279,7 @@ func GenHistory(t *rapid.T, hp *HistoryParams) Case {
 		}
 	}
 	var kinds []string
-	for _, k := range []string{"create", "sched", "filter", "bind", "phase", "delete", "deliver", "drop", "unbind", "resync",
+	for _, k := range []string{"recreate", "create", "sched", "filter", "bind", "phase", "delete", "deliver", "drop", "unbind", "resync",
 		"syncips", "scale", "delwl", "mkwl", "apirelease", "poolapi", "poolobj", "reload", "reserve", "unreserve", "fipevent",
 		"restart", "synclister", "quiesce", "episode"} {
 		for i := 0; i < w[k]; i++ {
@@ -286,12 +287,68 @@ func GenHistory(t *rapid.T, hp *HistoryParams) Case {
 		}
 	}
 	n := rapid.IntRange(hp.MinOps, hp.MaxOps).Draw(t, "nOps")
-	// a history starts by creating some pods
-	for i := 0; i < 2; i++ {
-		c.Ops = append(c.Ops, Op{K: "create", A: rapid.IntRange(0, 7).Draw(t, "wa"), B: rapid.IntRange(0, 5).Draw(t, "wb")})
+	// a history starts by creating and scheduling some pods
+	warm := rapid.IntRange(1, 4).Draw(t, "warmup")
+	for i := 0; i < warm; i++ {
+		c.Ops = append(c.Ops, Op{K: "create", A: rapid.IntRange(0, 7).Draw(t, "wa"), B: rapid.IntRange(0, 5).Draw(t, "wb")},
+			Op{K: "sched", A: rapid.IntRange(0, 7).Draw(t, "sa"), B: 63, C: rapid.IntRange(0, 7).Draw(t, "sc")})
+		if rapid.Bool().Draw(t, "running") {
+			c.Ops = append(c.Ops, Op{K: "phase", A: rapid.IntRange(0, 7).Draw(t, "ra"), B: 0})
+		}
 	}
-	for i := 0; i < n; i++ {
-		c.Ops = append(c.Ops, genOp(t, kinds, hp, 0))
+	n += len(c.Ops)
+	ab := func(k string) Op {
+		return Op{K: k, A: rapid.IntRange(0, 7).Draw(t, "pa"), B: rapid.IntRange(0, 63).Draw(t, "pb"), C: rapid.IntRange(0, 7).Draw(t, "pc")}
+	}
+	phrases := hp.Phrases
+	if phrases == 0 {
+		phrases = 35
+	}
+	for len(c.Ops) < n {
+		if rapid.IntRange(0, 99).Draw(t, "phrase") >= phrases {
+			c.Ops = append(c.Ops, genOp(t, kinds, hp, 0))
+			continue
+		}
+		maxKind := 6
+		if hp.Episodes {
+			maxKind = 10
+		}
+		sched := func() []int { return rapid.SliceOfN(rapid.IntRange(0, 2), 0, 40).Draw(t, "psched") }
+		switch rapid.IntRange(0, maxKind).Draw(t, "phraseKind") {
+		case 7: // old incarnation's events race with the replacement's scheduling
+			c.Ops = append(c.Ops, ab("recreate"), Op{K: "deliver"}, Op{K: "deliver"},
+				Op{K: "episode", Sub: []Op{ab("unbind"), ab("sched")}, Sched: sched()})
+		case 8: // two pods scheduled at the same time
+			c.Ops = append(c.Ops, ab("create"), ab("create"), Op{K: "episode", Sub: []Op{ab("sched"), ab("sched")}, Sched: sched()})
+		case 9: // resync / API release against scheduling
+			c.Ops = append(c.Ops, ab("recreate"), Op{K: "episode", Sub: []Op{rapid.SampledFrom([]Op{{K: "resync"}, ab("apirelease"),
+				{K: "deliver"}}).Draw(t, "vs"), ab("sched")}, Sched: sched()})
+		case 10: // filter now, bind later while something else runs
+			c.Ops = append(c.Ops, ab("create"), ab("filter"), Op{K: "episode", Sub: []Op{ab("bind"), rapid.SampledFrom([]Op{{K: "resync"},
+				ab("unbind"), ab("sched"), {K: "syncips"}}).Draw(t, "vs2")}, Sched: sched()})
+		case 0: // a pod's life
+			c.Ops = append(c.Ops, ab("create"), ab("sched"), Op{K: "phase", A: rapid.IntRange(0, 7).Draw(t, "pa"), B: 0})
+		case 1: // retire a pod and handle its events
+			c.Ops = append(c.Ops, ab("delete"), Op{K: "deliver"}, Op{K: "deliver"}, ab("unbind"), ab("unbind"))
+		case 2: // a pod finishes
+			c.Ops = append(c.Ops, Op{K: "phase", A: rapid.IntRange(0, 7).Draw(t, "pa"), B: rapid.IntRange(1, 2).Draw(t, "fin")},
+				Op{K: "deliver"}, Op{K: "deliver"}, ab("unbind"))
+		case 3: // replacement with the same name, scheduled before/after the old pod's events are handled
+			c.Ops = append(c.Ops, ab("recreate"))
+			if rapid.Bool().Draw(t, "eventsFirst") {
+				c.Ops = append(c.Ops, Op{K: "deliver"}, Op{K: "deliver"}, ab("unbind"), ab("sched"))
+			} else {
+				c.Ops = append(c.Ops, ab("sched"), Op{K: "deliver"}, Op{K: "deliver"}, ab("unbind"), ab("sched"))
+			}
+		case 4: // scale and retire
+			c.Ops = append(c.Ops, ab("scale"), ab("delete"), Op{K: "deliver"}, Op{K: "deliver"}, ab("unbind"), Op{K: "resync"})
+		case 5: // delete the app, then its pods
+			c.Ops = append(c.Ops, ab("delwl"), ab("delete"), ab("delete"), Op{K: "deliver"}, Op{K: "deliver"}, Op{K: "deliver"},
+				ab("unbind"), ab("unbind"), Op{K: "resync"})
+		case 6: // pods of a deployment roll
+			c.Ops = append(c.Ops, ab("create"), ab("sched"), ab("delete"), Op{K: "deliver"}, Op{K: "deliver"}, ab("unbind"),
+				ab("create"), ab("sched"))
+		}
 	}
 	if hp.EndQuiesce {
 		c.Ops = append(c.Ops, Op{K: "quiesce"})
